@@ -122,8 +122,9 @@ static arr_real _highpass_fir(int n, real_t wn, const arr_real& win) {
     }
 
     auto h = _lowpass_fir(n, wn, win);
-    auto hh = arr_real(h.slice(t1, n, 2));
-    h.slice(t1, n, 2) = -hh;
+    //flip the sign of every second tap up to the last one (h has n + 1 taps)
+    auto hh = arr_real(h.slice(t1, n + 1, 2));
+    h.slice(t1, n + 1, 2) = -hh;
     return h;
 }
 
